@@ -26,7 +26,7 @@ PROPS = {
     "C07": dict(title="numeric key encodings", families=[("codec", 4, 40, 0, 0)],
                 corr={"ENC"}, oracle=set(), theorem="Properties/C07.v", need386=True, special="codec"),
     "C08": dict(title="collation trees", families=[("tree:full:coll", 12, 120, 110, 14)],
-                corr=ALL_TREE_TAGS - {"RNG"}, oracle=ALL_TREE_TAGS - {"RNG"}, theorem="Properties/C08.v"),
+                corr=ALL_TREE_TAGS - {"RNG"}, oracle=ALL_TREE_TAGS - {"RNG"}, theorem="Properties/C08.v", opts=["-buf"]),
     "C09": dict(title="compound trees", families=[("tree:full:comp", 12, 120, 120, 20), ("codec", 2, 20, 0, 0)],
                 corr=ALL_TREE_TAGS | {"ENC"}, oracle=ALL_TREE_TAGS - {"PFX"}, theorem="Properties/C09.v"),
     "C10": dict(title="inner node tables", families=[("node4", 3, 12, 0, 0), ("node16", 3, 12, 0, 0), ("nodeseq", 8, 80, 0, 0)],
@@ -278,7 +278,7 @@ def proof_leg(ctx):
         return info
     ps = proof_status(th, ctx.build)
     info.update(ps)
-    rc, out = print_assumptions(th)
+    rc, out = print_assumptions(th, ctx.build)
     info["properties_compile_rc"] = rc
     assum = re.findall(r'(Closed under the global context|Axioms:\n(?:.+\n)+?)(?=\n|\Z)', out)
     info["print_assumptions"] = [a.strip()[:400] for a in assum][:12]
@@ -292,12 +292,13 @@ def finish(ctx, coverage, assumptions, proof=None):
     # broken proof obligations
     if proof and proof.get("exists"):
         broken = None
-        if not ctx.build.status.get("coq_ok"):
-            ff = ctx.build.status.get("coq_failed")
-            if ff and ff[0] in proof.get("cone", []):
-                broken = "Coq development no longer compiles: %s line %s (in the dependency cone of %s)" % (ff[0], ff[1], proof["theorem_file"])
-            elif ff is None:
-                broken = "Coq development no longer compiles (see build log)"
+        failed = [ff for ff in (ctx.build.status.get("coq_failed_all") or []) if ff[0] in proof.get("cone", [])]
+        if failed:
+            broken = "proof obligation no longer checks: %s line %s (in the dependency cone of %s)" % (failed[0][0], failed[0][1], proof["theorem_file"])
+        elif proof.get("stale"):
+            broken = "compiled proof missing or older than its source for %s (in the dependency cone of %s)" % (proof["stale"][:3], proof["theorem_file"])
+        elif not ctx.build.status.get("coq_ok") and not ctx.build.status.get("coq_failed_all"):
+            broken = "Coq development no longer compiles (see build log)"
         elif proof.get("properties_compile_rc", 0) != 0:
             broken = "%s no longer compiles: %s" % (proof["theorem_file"], proof.get("compile_error", "")[-300:])
         elif proof.get("forbidden"):
@@ -350,6 +351,55 @@ TRUSTED_BASE = [
     "the hand-written Gallina model is tied to the code only by the correspondence runs reported here",
 ]
 
+def coq_eval(ctx, files):
+    """Cross-check of the extraction by the kernel's evaluator: the operations the extracted model executed on a
+    sample of the generated histories, with the outputs it printed, are evaluated again inside Coq (vm_compute,
+    Extract/EvalCheck.v) and compared."""
+    tree_files = [f for f in files if any(c.startswith("NEW ") for c in read_cmds(f)[:3])]
+    if not tree_files:
+        return {}
+    nsamp, maxops = (1, 500) if ctx.tier == "quick" else (8, 2500)
+    samples = []
+    for f in tree_files[:nsamp]:
+        cmds = read_cmds(f)
+        keep, tids = [], []
+        for c in cmds:
+            t = c.split()
+            if len(t) > 1 and t[0] == "NEW":
+                if len(keep) > maxops:
+                    break
+                tids.append(t[1])
+            if len(t) > 1 and t[1] in tids:
+                keep.append(c)
+        p = os.path.join(ctx.work, "keval_%s.cmds" % os.path.basename(f)[:-5].replace("-", "_"))
+        open(p, "w").write("\n".join(keep) + "\n")
+        samples.append(p)
+    def one(p):
+        base = p[:-5]
+        rc, out = sh("ulimit -v 8000000; %s %s %s %s" % (ctx.build.driver, p, base + ".mod", base + "_cases.v"), 600)
+        if rc != 0:
+            return p, None, "driver failed: " + out[-300:]
+        rc, out = sh("coqc -Q %s GoArt %s 2>&1" % (COQ, os.path.basename(base) + "_cases.v"), 1500, os.path.dirname(p))
+        mt = re.search(r'T = (\d+)%nat', out)
+        mm = re.search(r'M = (\[.*?\])\s*:\s*list', out, re.S)
+        if rc != 0 or not mt or not mm:
+            return p, None, "coqc failed: " + out[-400:]
+        return p, (int(mt.group(1)), mm.group(1).strip()), ""
+    with ThreadPoolExecutor(max_workers=8) as ex:
+        res = list(ex.map(one, samples))
+    total = 0
+    for p, r, err in res:
+        if r is None:
+            report_violation(ctx, "correspondence", "kernel evaluation of the recorded model run could not be completed: " + err,
+                             {"file": os.path.basename(p), "broken": "Extract/EvalCheck.v on " + os.path.basename(p)}, "keval-" + os.path.basename(p)[:-5])
+            continue
+        total += r[0]
+        if r[1] != "[]":
+            report_violation(ctx, "correspondence", "the extracted model and the kernel's evaluation of the same Gallina model disagree (case, operation) = " + r[1][:200],
+                             {"file": os.path.basename(p), "commands": read_cmds(p)[:400], "broken": "extraction (ExtrOcamlBasic) vs vm_compute"},
+                             "keval-" + os.path.basename(p)[:-5])
+    return {"kernel_evaluated_ops": total, "kernel_evaluated_files": len(samples)}
+
 def run_property(ctx):
     cfg = ctx.cfg
     special = cfg.get("special")
@@ -383,6 +433,8 @@ def run_property(ctx):
         fn = getattr(vspecial, "extra_" + special, None)
         if fn:
             extra = fn(ctx) or {}
+    all_files = sorted(glob.glob(os.path.join(ctx.work, "*", "*.cmds")))
+    extra.update(coq_eval(ctx, [f for f in all_files if "_386" not in f and "keval_" not in f]))
     proof = proof_leg(ctx)
     coverage = {
         "evaluations": tot_all.get("commands", 0) + tot_all.get("commands_386", 0),
